@@ -474,10 +474,10 @@ bool g_noExclusions = false;   // set by directed reproducers
 void property(const pbt::Tape& t, pbt::Ctx& ctx) {
     pbt::Reader g(t[0]);
     const int nUnits = (int)t.size() - 1;
-    const int nProg = std::max(2, std::min(4, nUnits));
     SplitMix sched{((uint64_t)g.w() << 32) ^ g.w() ^ 0x5EEDull};
     const int pUnrel = 1 + g.pick(4);            // an unrelated call after a step with probability pUnrel/4
     const bool dupInstances = !g.chance(1, 4);   // interleave two live instances of program 0 as well
+    const int nProg = std::max(2, std::min(4, std::max(nUnits, 2 + g.pick(3))));   // units are used cyclically
 
     std::vector<ProgSpec> P; for (int j = 0; j < nProg; ++j) P.push_back(decodeProgram(t, j));
     if (ctx.wantDesc) { ctx.desc << nProg << " programs; unrelated-call probability " << pUnrel << "/4; duplicate live instances: " << dupInstances << "\n"; for (auto& p : P) p.describe(ctx.desc); }
@@ -555,7 +555,7 @@ void property(const pbt::Tape& t, pbt::Ctx& ctx) {
 
 pbt::Config config() {
     pbt::Config c; c.prop = "C46"; c.K = KW; c.minUnits = 2;
-    c.quick = {12, 400, 5, 22}; c.thorough = {100, 6000, 6, 200};
+    c.quick = {12, 400, 8, 22}; c.thorough = {100, 6000, 10, 200};
     c.caseTimeoutSecs = 300;
     c.rule = "rapidcheck tape -> 2..4 programs (unit j = program words + body unit; bodies of program j = units j, j+1, ... cyclic): model kind {mbgen tree + 7 force elements, + constraint {Rod, PointInPlane, ConstantSpeed, Ball}, GeneralContactSubsystem HuntCrossley spheres/half space, + ElasticFoundation triangle mesh, ContactTracker + CompliantContact sphere/ellipsoid/mesh}, 1..4 bodies of all 18 mobilizer types, integrator {RKM, RK3, RKF, Verlet, RK2, ExplicitEuler, SemiExplicitEuler, SemiExplicitEuler2, CPodes BDF, CPodes Adams} with generated accuracy/step/projection/interpolation/final-time options, horizon 0.02..0.3, 1..5 report times; GeneralForceSubsystem::setNumberOfThreads(1). Each program is executed by a pristine child process (forked from a zygote created before main), then in this process alone, repeated in reverse order, twice in a row, step-wise interleaved with the other programs and a second live instance of itself, and once more afterwards, with unrelated library calls (geometry and mesh queries, Random, LU/QTZ/SVD/Eigen, LBFGS, CMA-ES fixed seed, IPOPT, Xml/String, PolygonalMesh, geodesics, another simulation) in between. Non-trivial: >= 2 different programs interleaved step-wise with >= 1 unrelated call while >= 2 were live.";
     c.assumptions = {"the hash covers status, t, y, qdot, udot, multipliers, energy, last body pose and angular velocity, step sizes, integrator statistics and exception texts; other outputs are not observed",
